@@ -338,6 +338,26 @@ func (r *regWorld) storageOp(p *pools) (string, string) {
 		}
 		return rErr(err)
 	}
+	if rng.Intn(9) == 0 {
+		// the queue's status operations: sent, acknowledged, reset, next unsent
+		e := p.eui()
+		switch rng.Intn(4) {
+		case 0:
+			c, sent, fc := p.t(), p.t(), someU16(rng)
+			return fmt.Sprintf("ss:%s:%s:%s:%d", rEUI(e), rI64(c), rI64(sent), fc), res(st.SetMessageSentTime(e, c, sent, fc))
+		case 1:
+			fc, at := someU16(rng), p.t()
+			return fmt.Sprintf("ua:%s:%d:%s", rEUI(e), fc, rI64(at)), res(st.UpdateMessageAckTime(e, fc, at))
+		case 2:
+			return "ra:" + rEUI(e), res(st.ResetActiveAcks(e))
+		default:
+			m, err := st.GetNextUnsentMessage(e)
+			if err != nil {
+				return "nu:" + rEUI(e), rErr(err)
+			}
+			return "nu:" + rEUI(e), "downs[" + rDown(m) + "]"
+		}
+	}
 	if rng.Intn(10) == 0 {
 		// the two single-statement counter operations: compare-and-store, fetch-and-increment
 		e := p.eui()
